@@ -186,6 +186,56 @@ let handle kind a =
         | CEof -> "Eof"
         | CBad -> "ReadErr" in
       Some (iter_obs ^ " | " ^ conv_obs)
+  | "lzg" ->
+      (* Data::get of the lazy record for every probe tag; same oracle tables as lzc *)
+      let pt = table a.(1) and ft = table a.(2) in
+      let tab = n_of_int 9 in
+      let p32 s = match List.assoc_opt (hex_of_bytes s) ft with Some b -> Some (n_of_dec b) | None -> None in
+      let p32p s =
+        let rec span acc = function
+          | c :: t when c <> tab -> span (c :: acc) t
+          | rest -> (List.rev acc, rest) in
+        let (tok, rest) = span [] s in
+        match List.assoc_opt (hex_of_bytes tok) pt with Some b -> Some (n_of_dec b, rest) | None -> None in
+      let text = bytes_of_hex a.(3) in
+      let tags = List.map bytes_of_hex (split_on ',' a.(4)) in
+      let derr = function DEof -> "Err:UnexpectedEof" | DInv -> "Err:InvalidData" | DFuel -> "Fuel" in
+      let elems show l =
+        let rec go = function
+          | [] -> ""
+          | e :: t -> (match show e with Some s -> "," ^ s ^ go t | None -> ",!") in
+        go l in
+      let show_val = function
+        | LChar c -> "A:" ^ dec_of_n c
+        | LI32 z -> "i:" ^ dec_of_z z
+        | LU32 z -> "I:" ^ dec_of_z z
+        | LFloat b -> "f:" ^ dec_of_n b
+        | LStr s -> "Z:" ^ hex_of_bytes s
+        | LHex s -> "H:" ^ hex_of_bytes s
+        | LArrI (t, buf) ->
+            "B:" ^ String.make 1 (char_of_ity t)
+            ^ elems (fun e -> match lz_elem_i t e with Some z -> Some (dec_of_z z) | None -> None) (lz_arr_elems buf)
+        | LArrF buf ->
+            "B:f" ^ elems (fun e -> match p32 e with Some b -> Some (dec_of_n b) | None -> None) (lz_arr_elems buf) in
+      (match lazy_read text with
+       | LEof -> Some "Eof"
+       | LBad -> Some "ReadErr"
+       | LRec (buf, ends) ->
+           (match slice_from buf (bound ends (nat_of_int 10)) with
+            | AOk d ->
+                Some (String.concat ";" (List.map (fun tg ->
+                  let key = (List.nth tg 0, List.nth tg 1) in
+                  hex_of_bytes tg ^ "=" ^
+                  (match lazy_get p32p key d with
+                   | GNone -> "None"
+                   | GOk v -> show_val v
+                   | GErr e -> derr e)) tags))
+            | _ -> Some "Panic"))
+  | "hco" ->
+      (match header_write_read (dec_header a) with
+       | None -> Some "Err"
+       | Some (t, Some h) -> Some (hex_of_bytes t ^ " " ^ enc_header h)
+       | Some (t, None) -> Some (hex_of_bytes t ^ " Err"))
   | "tb" ->
       (* the bridge between the C06 and C05 record models: to_bam_d, then the C05 BAM encoder *)
       (match encode (n_of_dec a.(0)) (to_bam_d (dec_spec a 1)) with
